@@ -7,6 +7,7 @@ import (
 	"time"
 
 	"github.com/netflix/rend/handlers"
+	"github.com/netflix/rend/handlers/memcached/chunked"
 	"github.com/netflix/rend/handlers/memcached/std"
 	"github.com/netflix/rend/orcas"
 	"github.com/netflix/rend/protocol"
@@ -103,14 +104,18 @@ func (l *flistener) Configure(c net.Conn) (net.Conn, error) { return c, nil }
 
 // backends: every handler constructor call opens a new connection to the shared store
 type backend struct {
-	root  *model.MC
-	conns []*model.MC
+	root    *model.MC
+	conns   []*model.MC
+	chunked bool // handlers are chunked.Handler instead of std.Handler
 }
 
 func (b *backend) constructor(name string) handlers.HandlerConst {
 	return func() (handlers.Handler, error) {
 		c := b.root.NewConn(name)
 		b.conns = append(b.conns, c)
+		if b.chunked {
+			return chunked.NewHandler(c), nil
+		}
 		return std.NewHandler(c), nil
 	}
 }
@@ -165,6 +170,11 @@ func ZZDisconnect() {
 	rt.ClockSet(now)
 	l1 := &backend{root: model.NewMC("l1", now)}
 	l2 := &backend{root: model.NewMC("l2", now)}
+	if rt.Param("chunked", 0) == 1 {
+		// the chunking backend as L1 (as in rend's L1-chunked deployments); its entries start empty
+		l1.chunked = true
+		rt.RandDistinct(true)
+	}
 	l2.root.Put("a", true, []byte("old"), 7, 0)
 	l2.root.Put("bb", true, []byte("b"), 1, 0)
 	l1.root.Put("a", rt.Bool("a.inl1"), []byte("old"), 7, 0)
